@@ -211,7 +211,7 @@ def r_int(v, base):
 
 
 def r_member(m):
-    return "%s%s%s: %s%s" % (r_attrs(m["attrs"]), ("tag(%d) " % m["tag"]) if m["tag"] is not None else "", m["name"], "stream " if m.get("stream") else "", r_type(m["type"]))
+    return ("\n" + r_doc(m["doc"]) if m.get("doc") else "") + "%s%s%s: %s%s" % (r_attrs(m["attrs"]), ("tag(%d) " % m["tag"]) if m["tag"] is not None else "", m["name"], "stream " if m.get("stream") else "", r_type(m["type"]))
 
 
 def r_doc(doc):
@@ -226,7 +226,7 @@ def r_def(d):
     if k == "enum":
         ens = []
         for e in d["enumerators"]:
-            s = r_attrs(e["attrs"]) + e["name"]
+            s = ("\n" + r_doc(e["doc"]) if e.get("doc") else "") + r_attrs(e["attrs"]) + e["name"]
             if e["fields"] is not None:
                 s += "(%s)" % ", ".join(r_member(m) for m in e["fields"])
             if e["value"] is not None:
